@@ -514,3 +514,125 @@ Definition served_spec (c : cla_in) (pname : N) (e : ep) : Prop :=
   (exists shards k es, c_shards c = Some shards /\ In (k, es) shards /\ In e es /\
      (snd k = p_cluster c \/ (c_cluster_local c = false /\ c_node_local c = false))) /\
   port_subset_ok c pname e = true /\ filter_ep c e = true.
+
+(* ------------------------------------------------------------------ locality load balancing
+   pilot/pkg/networking/core/loadbalancer/loadbalancer.go: ApplyLocalityLoadBalancer without
+   `distribute` (which removes the endpoints of unmatched localities by design): applyFailoverPriorities,
+   applyFailoverPriorityPerLocality, applyLocalityFailover.  A locality label is interned as
+   100*region + 10*zone + subzone (digits 1..9), 0 = the empty label. *)
+
+(* members together with the labels of the IstioEndpoint they were built from (gateway members: none
+   of the harness's label keys) *)
+Definition lmember := (list (N * N) * member)%type.
+Definition lgroup_l := (N * option N * list lmember)%type.
+
+Definition plain_group_l (g : N * list ep) : lgroup_l :=
+  (fst g, Some (sat_sum (map m_weight (map member_of (snd g)))), map (fun e => (e_labels e, member_of e)) (snd g)).
+Definition direct_members_l (c : cla_in) (es : list ep) : list lmember :=
+  flat_map (fun e => match route_of c e with Direct m => [(e_labels e, m)] | _ => [] end) es.
+Definition net_filter_group_l (c : cla_in) (g : N * list ep) : lgroup_l :=
+  let ms := direct_members_l c (snd g) ++ map (fun x => ([], gw_member x)) (sort_gws (gw_weights c (snd g))) in
+  (fst g, match ms with [] => None | _ => Some (sat_sum (map (fun x => m_weight (snd x)) ms)) end, ms).
+Definition build_cla_l (c : cla_in) : list lgroup_l :=
+  if negb (c_found c) then [] else
+  match find_port (c_port c) (c_ports c) with
+  | None => []
+  | Some pname =>
+      let es := selected c pname in
+      let groups := map (group_of es) (localities es) in
+      if multi_network c then map (net_filter_group_l c) groups else map plain_group_l groups
+  end.
+Definition strip_l (g : lgroup_l) : lgroup := (fst (fst g), snd (fst g), map snd (snd g)).
+
+(* locality, priority, LoadBalancingWeight, members *)
+Definition pgroup_l := (N * N * option N * list lmember)%type.
+Definition pg_loc (g : pgroup_l) : N := fst (fst (fst g)).
+Definition pg_prio (g : pgroup_l) : N := snd (fst (fst g)).
+Definition pg_weight (g : pgroup_l) : option N := snd (fst g).
+Definition pg_members (g : pgroup_l) : list lmember := snd g.
+Definition set_prio (p : N) (g : pgroup_l) : pgroup_l := (pg_loc g, p, pg_weight g, pg_members g).
+Definition to_pgroup (g : lgroup_l) : pgroup_l := (fst (fst g), 0, snd (fst g), snd g).
+
+Record lb_in := {
+  l_has_lb : bool;                      (* the DestinationRule has a localityLbSetting *)
+  l_proxy_loc : N;                      (* proxy.Locality *)
+  l_proxy_labels : list (N * N);        (* proxy.Labels *)
+  l_failover : list (N * N);            (* failover: from region -> to region *)
+  l_prio : list (N * option N)          (* failoverPriority: label key, optional "=value" override *)
+}.
+
+Definition loc_region (l : N) : N := l / 100.
+Definition loc_zone (l : N) : N := (l / 10) mod 10.
+Definition loc_sub (l : N) : N := l mod 10.
+(* util.LbPriority *)
+Definition lb_priority (p l : N) : N :=
+  if loc_region p =? loc_region l then
+    if loc_zone p =? loc_zone l then if loc_sub p =? loc_sub l then 0 else 1 else 2
+  else 3.
+
+(* sorted distinct priorities and the rank of a priority among them (the "adjust the priorities in
+   order" loops) *)
+Definition prios_of {A} (f : A -> N) (l : list A) : list N := fold_left (fun acc x => ins_sorted (f x) acc) l [].
+Fixpoint rank_in (p : N) (l : list N) : N :=
+  match l with
+  | [] => 0
+  | q :: l' => if q <? p then 1 + rank_in p l' else 0
+  end.
+Definition compact (gs : list pgroup_l) : list pgroup_l :=
+  let ps := prios_of pg_prio gs in map (fun g => set_prio (rank_in (pg_prio g) ps) g) gs.
+
+(* applyLocalityFailover *)
+Definition failover_priority (lb : lb_in) (loc : N) : N :=
+  let p := lb_priority (l_proxy_loc lb) loc in
+  if p =? 3 then
+    match find (fun f => fst f =? loc_region (l_proxy_loc lb)) (l_failover lb) with
+    | Some f => if loc_region loc =? snd f then 3 else 4
+    | None => 3
+    end
+  else p.
+Definition apply_locality_failover (lb : lb_in) (gs : list pgroup_l) : list pgroup_l :=
+  compact (map (fun g => set_prio (pg_prio g * 5 + failover_priority lb (pg_loc g)) g) gs).
+
+(* applyFailoverPriorityPerLocality: the priority of one endpoint = number of labels from the first
+   mismatching one on *)
+Definition olab_eqb (a b : option N) : bool :=
+  match a, b with Some x, Some y => x =? y | None, None => true | _, _ => false end.
+Fixpoint fp_prio (lowest j : N) (ps : list (N * option N)) (plabels elabels : list (N * N)) : N :=
+  match ps with
+  | [] => 0
+  | (key, ov) :: ps' =>
+      let vp := match ov with Some v => Some v | None => lab_lookup key plabels end in
+      if olab_eqb vp (lab_lookup key elabels) then fp_prio lowest (j + 1) ps' plabels elabels else lowest - j
+  end.
+Definition member_prio (lb : lb_in) (x : lmember) : N :=
+  fp_prio (N.of_nat (length (l_prio lb))) 0 (l_prio lb) (l_proxy_labels lb) (fst x).
+Definition U32MOD : N := 4294967296.
+Definition wrap_sum (ws : list N) : N := fold_left (fun a b => (a + b) mod U32MOD) ws 0.    (* uint32 += *)
+(* one LocalityLbEndpoints is split into one per priority present, members keep their order; the
+   weight is re-summed with a plain uint32 += *)
+Definition split_group (lb : lb_in) (g : lgroup_l) : list pgroup_l :=
+  map (fun p => let ms := filter (fun x => member_prio lb x =? p) (snd g) in
+                (fst (fst g), p, Some (wrap_sum (map (fun x => m_weight (snd x)) ms)), ms))
+      (prios_of (member_prio lb) (snd g)).
+(* applyFailoverPriorities *)
+Definition apply_failover_priorities (lb : lb_in) (gs : list lgroup_l) : list pgroup_l :=
+  match l_proxy_labels lb, gs with
+  | [], _ | _, [] => map to_pgroup gs
+  | _, _ => compact (flat_map (split_group lb) gs)
+  end.
+
+Definition enable_failover (c : cla_in) : bool := match effective_od c with Some _ => true | None => false end.
+
+(* ApplyLocalityLoadBalancer as BuildClusterLoadAssignment calls it *)
+Definition apply_lb (c : cla_in) (lb : lb_in) (gs : list lgroup_l) : list pgroup_l :=
+  if negb (l_has_lb lb) || negb (enable_failover c) then map to_pgroup gs else
+  match l_prio lb with
+  | [] => apply_locality_failover lb (map to_pgroup gs)
+  | _ => let gs1 := apply_failover_priorities lb gs in
+         match l_failover lb with [] => gs1 | _ => apply_locality_failover lb gs1 end
+  end.
+Definition build_cla_lb (c : cla_in) (lb : lb_in) : list pgroup_l := apply_lb c lb (build_cla_l c).
+
+(* what is observed of a group after load balancing *)
+Definition pgroup := (N * N * option N * list member)%type.
+Definition strip_p (g : pgroup_l) : pgroup := (pg_loc g, pg_prio g, pg_weight g, map snd (pg_members g)).
